@@ -125,18 +125,18 @@ def gen_cases(ctx, consts):
     C.append(("eloss", dict(d=Table([1.0, 1.0], 0.0, 1.0, -1), rt=Table([2.0, 4.0], 0.0, 1.0, -1),
                             lll=0.01, e=1.0, range=2.0, args=[0.00999, 0.01, 2.0])))
     modes = ["none", "zero", "one", "last", "prelast", "any"]
-    nxs = 36 if not thorough else 1500
+    nxs = 36 if not thorough else 400
     for i in range(nxs):
         n = None
         mode = modes[i % len(modes)]
-        if i < 24 and not thorough or (thorough and i < 400):
+        if i < 24 and not thorough or (thorough and i < 150):
             n = r.choice([2, 3, 4, 5, 6, 7])
         t = gen_table(r, "xs", mode, n)
         if n is not None and mode == "any":
             t = Table(t.raw, t.front, t.back, i // len(modes) % t.n)     # every position for small tables
         C.append(("xs", dict(t=t, args=energies_for(r, t, thorough))))
         C.append(("xsat", dict(t=t, args=sorted({0, 1, t.n - 1, max(0, t.prime), r.randrange(t.n)}))))
-    for i in range(20 if not thorough else 800):
+    for i in range(20 if not thorough else 200):
         t = gen_table(r, "range")
         C.append(("range", dict(t=t, args=sorted(energies_for(r, t, thorough)))))
         rs = []
@@ -147,7 +147,7 @@ def gen_cases(ctx, consts):
         rs += [r.uniform(t.values[0], t.values[-1]) for _ in range(4)]
         rs = sorted(x for x in rs if 0 < x <= t.values[-1])
         C.append(("invrange", dict(t=t, args=rs)))
-    for i in range(40 if not thorough else 1500):
+    for i in range(40 if not thorough else 400):
         d = gen_table(r, "xs", n=r.choice([2, 3, 5, 17, 60]))
         rt = gen_table(r, "range", n=d.n)
         rt = Table(rt.raw, d.front, d.back, -1)          # same energy grid for both tables
@@ -171,7 +171,7 @@ def gen_cases(ctx, consts):
         steps += [sw * f for f in (0.5, 0.9, 0.999, 1.001, 1.1, 2.0)]
         steps = sorted(s for s in set(steps) if 0 < s <= rng)
         C.append(("eloss", dict(d=d, rt=rt, lll=lll, e=e, range=rng, args=steps, consistent=consistent)))
-    for i in range(40 if not thorough else 1500):
+    for i in range(40 if not thorough else 400):
         m = gen_table(r, "xs", n=r.choice([2, 3, 5, 17]))
         rt = gen_table(r, "range", n=r.choice([2, 3, 5, 17]))
         emass = 0.5109989461
@@ -183,7 +183,7 @@ def gen_cases(ctx, consts):
         ts += [lam * 10 ** r.uniform(-12, 0) for _ in range(2)]
         ts = sorted(x for x in set(ts) if 0 < x <= rng)
         C.append(("togeo", dict(m=m, rt=rt, emass=emass, e=e, lam=lam, range=rng, args=ts)))
-    for i in range(60 if not thorough else 2500):
+    for i in range(60 if not thorough else 600):
         lam = 10 ** r.uniform(-6, 6)
         rng = 10 ** r.uniform(-6, 6)
         true = rng * r.choice([1.0, 1.0, r.random(), 10 ** r.uniform(-12, 0)])
@@ -352,7 +352,7 @@ def agree(k, p, out, mv):
     return all(close(x, y, rtol=1e-9, atol=1e-300) for x, y in zip(out, mv))
 
 
-def batched_eval(ctx, name, pre, kexprs, batch=12, files=8):
+def batched_eval(ctx, name, pre, kexprs, batch=12, files=4):
     order = {}
     for i, (k, e) in enumerate(kexprs):
         order.setdefault(k, []).append(i)
@@ -419,8 +419,10 @@ def run(ctx):
                       {"command": line[:3000], "harness_output_tail": out1[-1500:]})
         return
     mvals = batched_eval(ctx, "calc", PRE, [(k, case_expr(k, p, consts)) for k, p in cases])
-    nviol = 0
+    nviol = {}
     for (k, p), ol, mv in zip(cases, olines, mvals):
+        if nviol.get(k, 0) >= 2:
+            continue
         tok = ol.split("|")[0].split()
         vals = [pf(t) for t in tok]
         if k == "togeo":
@@ -432,16 +434,14 @@ def run(ctx):
             ctx.sample({"kind": k, "command": case_line(k, p)[:160], "impl": ol[:120], "model": repr(mv)[:120]})
         msg, at = oracle(k, p, vals, consts)
         if msg:
-            nviol += 1
+            nviol[k] = nviol.get(k, 0) + 1
             ctx.violation("oracle", "%s (%s)" % (msg, k), {"command": case_line(k, p)[:3000], "at": hx(at) if isinstance(at, float) else at,
                                                            "implementation": ol[:2000], "model": repr(mv)[:2000]})
         elif not agree(k, p, vals, mv):
-            nviol += 1
+            nviol[k] = nviol.get(k, 0) + 1
             ctx.violation("correspondence", "model and implementation differ for %s" % k,
                           {"command": case_line(k, p)[:3000], "implementation": ol[:2000], "model": repr(mv)[:2000],
                            "theorem": "Properties_C14.v is about a model that no longer matches the code"}, no_input=True)
-        if nviol > 6:
-            break
     # replay of the refutation witness (Properties_C14.v: C14_mean_loss_monotone_refuted) on the real function
     for (k, p), ol in zip(cases, olines):
         if k == "eloss" and p["args"] == [0.00999, 0.01, 2.0]:
